@@ -99,10 +99,56 @@ def _ob(op, kind="K_IO", st=1, ctx=0, what=None, **kw):
     if _T: d["timeout"] = _T
     return d
 
+BOPS = ["ADD", "PREPEND", "EXPAND", "DRAIN", "REMOVE", "COPYOUT", "PULLUP", "RESERVE_COMMIT", "ADD_REFERENCE", "ADD_BUFFER", "PREPEND_BUFFER",
+        "REMOVE_BUFFER", "ADD_BUFFER_REFERENCE", "SEARCH", "SEARCH_EOL", "READLN", "PEEK", "PTR_SET", "FREEZE", "GETTERS", "CALLBACKS", "FREE",
+        "DEFER", "ENABLE_LOCKING", "ADD_IOVEC", "COPYOUT_FROM", "NEW_FREE"]
+def _obb(op, **kw):
+    d = dict(name="evbuffer_%s" % op.lower(), harness="C08_evbuffer_api.c", entry="harness_evbuffer_api", sources=[],
+             defines=["C08B_OP=%d" % BOPS.index(op), "LIBEVENT_VERIF_MIN_BUFFER_SIZE=64", "VP_OBJ=160"], unwind=42,
+             unwindset=["evbuffer_chain_free:2", "evbuffer_decref_and_unlock_:2", "evbuffer_file_segment_free:1"],
+             cbmc=["--max-field-sensitivity-array-size", "160", "--object-bits", "10", "--no-standard-checks"], timeout=600, mem_gb=5,
+             desc="buffer.c: %s on a locked two-chain evbuffer, sizes {0,3,16,30}, k-th allocation fails k in {-,1,2,3}: lock balance" % op)
+    if op in BSMALL: d["defines"].append("C08B_SMALL"); d["desc"] = d["desc"].replace("sizes {0,3,16,30}, k-th allocation fails k in {-,1,2,3}", "sizes {all/0,16}, 1st allocation may fail")
+    d.update(kw)
+    if _T: d["timeout"] = _T
+    return d
+BSMALL = ("PULLUP",)
+
+LOPS = ["NEW_FREE", "ENABLE_DISABLE", "GETTERS", "SET_CB", "ACCEPT"]
+LACTS = ["NONE", "DISABLE", "FREE", "CLEAR_CB", "ENABLE"]
+def _obl(op, act="NONE", **kw):
+    P = [("event_base_loop.function_pointer_call.7", "c08l_dispatch"),
+         ("event_persist_closure.function_pointer_call.2", "listener_read_cb"),
+         ("event_process_active_single_queue.function_pointer_call.2", "listener_read_cb"),
+         ("listener_read_cb.function_pointer_call.3", "accept_cb"),
+         ("listener_read_cb.function_pointer_call.6", "error_cb"),
+         ("evmap_io_add_.function_pointer_call.1", "vp_be_add"), ("evmap_io_del_.function_pointer_call.1", "vp_be_del"),
+         ("evmap_signal_add_.function_pointer_call.1", "vp_sig_add"), ("evmap_signal_del_.function_pointer_call.1", "vp_sig_del"),
+         ("event_base_free_.function_pointer_call.1", "vp_be_dealloc"), ("evthread_notify_base.function_pointer_call.1", "vp_notify_fn"),
+         ("event_mm_malloc_.function_pointer_call.1", "c08l_malloc"), ("event_mm_calloc_.function_pointer_call.1", "c08l_malloc"),
+         ("event_mm_realloc_.function_pointer_call.1", "c08l_realloc"), ("event_mm_free_.function_pointer_call.1", "c08l_free"),
+         ("vp_base_new_ops.function_pointer_call.1", "vp_be_init"),
+         ("evmap_io_foreach_fd.function_pointer_call.1", "evmap_io_delete_all_iter_fn"),
+         ("evmap_signal_foreach_signal.function_pointer_call.1", "evmap_signal_delete_all_iter_fn")]
+    pins = []
+    for lab, tg in P: pins += ["--restrict-function-pointer", "%s/%s" % (lab, tg)]
+    d = dict(name="listener_%s%s" % (op.lower(), "" if act == "NONE" else "_cb" + act.lower()), harness="C08_listener_api.c", entry="harness_listener_api",
+             sources=[], defines=["C08L_OP=%d" % LOPS.index(op), "C08L_CBACT=%d" % LACTS.index(act)], unwind=6,
+             unwindset=["evmap_io_foreach_fd.0:34", "evmap_signal_foreach_signal.0:34", "evmap_io_clear_.0:34", "evmap_signal_clear_.0:34"],
+             instrument=[pins], cbmc=["--object-bits", "10", "--no-standard-checks"], timeout=600, mem_gb=4,
+             desc="listener.c: %s on a LEV_OPT_THREADSAFE listener%s: lock balance (listener lock + base lock)" % (op, "" if act == "NONE" else ", accept/error callback does " + act))
+    d.update(kw)
+    if _T: d["timeout"] = _T
+    return d
+
 EVENT_OPS = ["ADD", "DEL", "DEL_BLOCK", "DEL_NOBLOCK", "ACTIVE", "ACTIVE_LATER", "PRIORITY_SET", "REMOVE_TIMER", "PENDING", "FINALIZE", "BASE_SET"]
 NO_LOOP_CTX = ("BASE_FREE", "PRIORITY_INIT")   # documented as illegal while the loop runs
 
 def obligations(tier):
+    if os.environ.get("C08L_PROBE"):
+        return [_obl(*x.split(":")) for x in os.environ["C08L_PROBE"].split(",")]
+    if os.environ.get("C08B_PROBE"):
+        return [_obb(x) for x in os.environ["C08B_PROBE"].split(",")]
     if os.environ.get("C08_PROBE"):
         return [_ob(*x.split(":")[:2], st=int(x.split(":")[2]), ctx=int(x.split(":")[3])) for x in os.environ["C08_PROBE"].split(",")]
     obs = []
